@@ -29,7 +29,62 @@ import (
 // revision (the oracle's own list).
 var vf37PermittedSysAttrs = map[string]bool{
 	"__NEOFS__NAME": true, "__NEOFS__ZONE": true, "__NEOFS__LOCK_UNTIL": true,
-	// "__NEOFS__METAINFO_CONSISTENCY" is permitted only where chain metadata is enabled; it is off in the fixture
+}
+
+// "__NEOFS__METAINFO_CONSISTENCY" is permitted only where chain metadata is enabled.
+const vf37SysAttrMeta = "__NEOFS__METAINFO_CONSISTENCY"
+
+// vf37SysAttrPermitted is the oracle's reading of "only permitted system attributes may be
+// present" for one attribute key on a node with chain metadata on or off. It is applied to
+// EVERY attribute of the container, wherever it stands in the attribute list.
+func vf37SysAttrPermitted(key string, metaOn bool) bool {
+	if !strings.HasPrefix(key, "__NEOFS__") {
+		return true // not a system attribute
+	}
+	return vf37PermittedSysAttrs[key] || (metaOn && key == vf37SysAttrMeta)
+}
+
+// vf37AttrPool: what the extra attributes of a created container are drawn from. class:
+// "user" (no system prefix), "ok" (permitted system attribute), "meta" (permitted iff chain
+// metadata is on), "bad" (system attribute nobody permits).
+var vf37AttrPool = []struct{ key, val, class string }{
+	{"__NEOFS__FOO", "1", "bad"},
+	{"__NEOFS__DISABLE_HOMOMORPHIC_HASHING", "true", "bad"},
+	{"__NEOFS__NAME_", "x", "bad"}, // permitted name plus one character
+	{vf37SysAttrMeta, "strict", "meta"},
+	{vf37SysAttrMeta, "optimistic", "meta"},
+	{vf37SysAttrMeta, "whatever", "meta"},
+	{"__NEOFS__LOCK_UNTIL", "4000000000", "ok"},
+	{"Tag", "blue", "user"},
+	{"NEOFS__FOO", "1", "user"}, // no system prefix
+}
+
+// vf37GenAttrs draws 0..4 extra attributes with distinct keys in a random order, so that a
+// forbidden system attribute can stand alone, before or after permitted system attributes
+// (incl. the metadata one) and ordinary attributes.
+func vf37GenAttrs(rng *rand.Rand) (attrs [][2]string, classes []string) {
+	n := 0
+	switch d := rng.IntN(20); {
+	case d < 8:
+		n = 0
+	case d < 13:
+		n = 1
+	case d < 17:
+		n = 2
+	case d < 19:
+		n = 3
+	default:
+		n = 4
+	}
+	for len(attrs) < n {
+		a := vf37AttrPool[rng.IntN(len(vf37AttrPool))]
+		if slices.ContainsFunc(attrs, func(x [2]string) bool { return x[0] == a.key }) {
+			continue
+		}
+		attrs = append(attrs, [2]string{a.key, a.val})
+		classes = append(classes, a.class)
+	}
+	return
 }
 
 var vf37Kinds = []string{"put", "putNamed", "create", "createV2", "createV2+eacl", "delete", "remove", "setEACL", "putEACL", "setAttribute", "removeAttribute"}
@@ -99,6 +154,9 @@ type vf37Env struct {
 	now      time.Time
 	// containers of the owner known to the chain
 	siblings []cid.ID
+	// chain metadata enabled on the node, and what it registered on the metadata chain
+	metaOn bool
+	meta   *vf37MetaChain
 }
 
 // genAuth builds a witness for data. verbV1/verbV2 are the verbs the operation needs;
@@ -507,6 +565,29 @@ func (e *vf37Env) genV2(data []byte, kind string, target *cid.ID, newID *cid.ID)
 	return a
 }
 
+// vf37SysShape names where the first forbidden system attribute stands among the system
+// attributes of a container (list order; "p" permitted, "m" the metadata attribute where it
+// is permitted, "F" forbidden).
+func vf37SysShape(shape []string) string {
+	if len(shape) == 0 {
+		return "no-system-attribute"
+	}
+	f := slices.Index(shape, "F")
+	switch {
+	case f < 0 && slices.Contains(shape, "m"):
+		return "all-permitted-with-metadata-attribute"
+	case f < 0:
+		return "all-permitted"
+	case len(shape) == 1:
+		return "forbidden-only"
+	case f == 0:
+		return "forbidden-first-then-others"
+	case slices.Contains(shape[:f], "m"):
+		return "forbidden-after-metadata-attribute"
+	}
+	return "forbidden-after-permitted"
+}
+
 func vf37Bytes(rng *rand.Rand, n int) []byte {
 	b := make([]byte, n)
 	for i := range b {
@@ -523,9 +604,9 @@ func TestVerif_C37(t *testing.T) {
 	defer r.Finish()
 	nWorlds := r.Pick(80, 600)
 	perWorld := r.Pick(100, 250)
-	r.SetRule(fmt.Sprintf("%d seeded nodes (alphabet member; EC allowed on every second one) x %d container requests each: kind in %v; witness in {owner RFC6979 signature, stranger signature, owner key with foreign signature, owner signature of other data, N3 witness accepted/refused by the chain, session v1 token, session v2 token (one context, or several contexts over wildcard / target / other containers of the owner / unrelated containers with independent verb sets; delegation with equal, wider or narrower root token)} with mutated verbs, container binding, lifetimes, issuers, token signatures; creation content with valid/invalid REP, EC, REP+EC policies and permitted/forbidden system attributes; eACL tables targeting others/user/system roles on extendable/final containers; distinct = (kind, witness mode, oracle verdict components, approved?) signatures", nWorlds, perWorld, vf37Kinds))
+	r.SetRule(fmt.Sprintf("%d seeded nodes (alphabet member; EC allowed on every second one, chain metadata enabled on nodes 2,3 of every four) x %d container requests each: kind in %v; witness in {owner RFC6979 signature, stranger signature, owner key with foreign signature, owner signature of other data, N3 witness accepted/refused by the chain, session v1 token, session v2 token (one context, or several contexts over wildcard / target / other containers of the owner / unrelated containers with independent verb sets; delegation with equal, wider or narrower root token)} with mutated verbs, container binding, lifetimes, issuers, token signatures; creation content with valid/invalid REP, EC, REP+EC policies and 0-4 extra attributes in random order drawn from forbidden system attributes, permitted ones, the chain-metadata attribute (permitted iff the node has chain metadata enabled - crossed with the EC switch over the nodes) and ordinary attributes, domain attributes before or after them; eACL tables targeting others/user/system roles on extendable/final containers; distinct = (kind, witness mode, oracle verdict components, approved?) signatures", nWorlds, perWorld, vf37Kinds))
 	r.Assume("a contract-style (N3) witness counts as the owner's signature iff the chain's script run returns true")
-	r.Assume("permitted system attributes = __NEOFS__NAME, __NEOFS__ZONE, __NEOFS__LOCK_UNTIL (chain metadata is disabled in the fixture, so __NEOFS__METAINFO_CONSISTENCY is not permitted)")
+	r.Assume("permitted system attributes = __NEOFS__NAME, __NEOFS__ZONE, __NEOFS__LOCK_UNTIL, and __NEOFS__METAINFO_CONSISTENCY on nodes with chain metadata enabled (every second pair of nodes); the rule applies to every attribute of the container wherever it stands in the list")
 	r.Assume("a v2 token is 'for that verb and container' iff one of its contexts that applies to the container (wildcard or exactly this container) lists the verb; in a delegation chain this must also hold for the root token, the one the owner signed")
 	r.Assume("for creation with a v2 token the oracle only demands that some context carries CONTAINER_PUT (the statement names no container to match)")
 
@@ -537,7 +618,13 @@ func TestVerif_C37(t *testing.T) {
 		}
 		w := vf37NewWorld(rng, ch, 3)
 		allowEC := wi%2 == 1
-		n := vf37NewNode(t, rng, ch, vf37NodeOpts{AlphabetContracts: 4, AllowEC: allowEC})
+		// the two node switches are crossed: (EC, chain metadata) = off/off, on/off, off/on, on/on
+		metaOn := wi%4 >= 2
+		var metaChain *vf37MetaChain
+		if metaOn {
+			metaChain = &vf37MetaChain{}
+		}
+		n := vf37NewNode(t, rng, ch, vf37NodeOpts{AlphabetContracts: 4, AllowEC: allowEC, MetaEnabled: metaOn, MetaChain: metaChain})
 		ch.committee[rng.IntN(4)] = n.key.PublicKey() // the node is an alphabet member
 		ch.irKeys = slices.Clone(ch.committee)
 		// a second stored container of the same owner whose basic ACL is final
@@ -545,7 +632,7 @@ func TestVerif_C37(t *testing.T) {
 		finalID := cid.NewFromMarshalledContainer(final.Marshal())
 		ch.containers[finalID] = final.Marshal()
 
-		e := &vf37Env{rng: rng, ch: ch, n: n, owner: w.Owner, ownerID: w.OwnerID, stranger: vf37Key(rng), epoch: ch.epoch, now: n.now, siblings: []cid.ID{w.CnrID, finalID}}
+		e := &vf37Env{rng: rng, ch: ch, n: n, owner: w.Owner, ownerID: w.OwnerID, stranger: vf37Key(rng), epoch: ch.epoch, now: n.now, siblings: []cid.ID{w.CnrID, finalID}, metaOn: metaOn, meta: metaChain}
 		for qi := 0; qi < perWorld; qi++ {
 			vf37OneRequest(r, e, w, finalID, allowEC, wi, qi)
 		}
@@ -556,6 +643,14 @@ func TestVerif_C37(t *testing.T) {
 	}
 	if r.Counter("v2_multi_context_authorising_approved") == 0 || r.Counter("v2_multi_context_verb-and-container-in-different-contexts_refused") == 0 {
 		r.Inconclusive("v2 tokens with several contexts: an approval with verb and container in one context and a refusal with verb and container in different contexts were not both observed")
+	}
+	if r.Counter("sysattr_metadata-on_all-permitted-with-metadata-attribute_approved") == 0 {
+		r.Inconclusive("no creation carrying the metadata attribute was approved by a node with chain metadata enabled")
+	}
+	for _, sh := range []string{"forbidden-only", "forbidden-first-then-others", "forbidden-after-permitted", "forbidden-after-metadata-attribute"} {
+		if r.Counter("sysattr_else-fine_"+sh+"_refused")+r.Counter("sysattr_else-fine_"+sh+"_approved") == 0 {
+			r.Inconclusive("no otherwise approvable creation with system attribute order '" + sh + "' was generated")
+		}
 	}
 	for _, k := range vf37Kinds {
 		if r.Counter("approved_kind_"+k) == 0 {
@@ -568,7 +663,7 @@ func vf37OneRequest(r *verifkit.Run, e *vf37Env, w *vf37World, finalID cid.ID, a
 	rng := e.rng
 	kind := vf37Kinds[rng.IntN(len(vf37Kinds))]
 	cnrSH := e.n.srv.contracts.container
-	desc := map[string]any{"world": wi, "request": qi, "kind": kind, "ec_allowed": allowEC}
+	desc := map[string]any{"world": wi, "request": qi, "kind": kind, "ec_allowed": allowEC, "chain_metadata_enabled": e.metaOn}
 	var (
 		calls      []vf37Invoke
 		auth       vf37Auth
@@ -579,6 +674,7 @@ func vf37OneRequest(r *verifkit.Run, e *vf37Env, w *vf37World, finalID cid.ID, a
 		extendable = true
 		touchesSys = false
 		contentTag []string
+		sysShape   string // creation: order of permitted / forbidden system attributes
 	)
 
 	genEACL := func(id cid.ID) ([]byte, bool) {
@@ -620,19 +716,8 @@ func vf37OneRequest(r *verifkit.Run, e *vf37Env, w *vf37World, finalID cid.ID, a
 		if o.Policy != "" {
 			contentTag = append(contentTag, "policy="+o.Policy)
 		}
-		switch rng.IntN(9) {
-		case 0:
-			o.Attrs = append(o.Attrs, [2]string{"__NEOFS__FOO", "1"})
-			sysOK = false
-		case 1:
-			o.Attrs = append(o.Attrs, [2]string{"__NEOFS__METAINFO_CONSISTENCY", "strict"})
-			sysOK = false
-		case 2:
-			o.Attrs = append(o.Attrs, [2]string{"__NEOFS__LOCK_UNTIL", "4000000000"})
-		case 3:
-			o.Attrs = append(o.Attrs, [2]string{"__NEOFS__DISABLE_HOMOMORPHIC_HASHING", "true"})
-			sysOK = false
-		}
+		o.Attrs, _ = vf37GenAttrs(rng)
+		o.DomainFirst = rng.IntN(2) == 0
 		if rng.IntN(3) == 0 {
 			o.BasicACL = acl.PublicRW // final
 			extendable = false
@@ -643,15 +728,29 @@ func vf37OneRequest(r *verifkit.Run, e *vf37Env, w *vf37World, finalID cid.ID, a
 			o.Name, o.Zone = name, zone
 		}
 		cn := vf37Container(rng, e.ownerID, o)
-		for _, a := range o.Attrs {
-			contentTag = append(contentTag, "attr="+a[0])
-		}
-		// the oracle's own look at the content
 		for k := range cn.Attributes() {
-			if strings.HasPrefix(k, "__NEOFS__") && !vf37PermittedSysAttrs[k] {
-				sysOK = false
+			if k != "Nonce" {
+				contentTag = append(contentTag, "attr="+k)
 			}
 		}
+		// the oracle's own look at the content: every attribute, in the order of the list
+		var shape []string // permitted ("p") / forbidden ("F") system attributes in list order
+		for k := range cn.Attributes() {
+			if !strings.HasPrefix(k, "__NEOFS__") {
+				continue
+			}
+			if vf37SysAttrPermitted(k, e.metaOn) {
+				if k == vf37SysAttrMeta {
+					shape = append(shape, "m")
+				} else {
+					shape = append(shape, "p")
+				}
+			} else {
+				sysOK = false
+				shape = append(shape, "F")
+			}
+		}
+		sysShape = vf37SysShape(shape)
 		policyOK = cn.PlacementPolicy().Verify() == nil
 		b := cn.Marshal()
 		var info any
@@ -756,6 +855,25 @@ func vf37OneRequest(r *verifkit.Run, e *vf37Env, w *vf37World, finalID cid.ID, a
 		approved = true
 	}
 	mode := auth.Mode
+	if e.meta != nil {
+		r.Count("metadata_chain_registrations", len(e.meta.takeRegistered()))
+	}
+	// what was observed about system attributes: where the first forbidden one stands, on
+	// nodes with chain metadata on/off; "else-fine" = witness and policy would allow approval
+	if vf37IsCreation(kind) {
+		out := "refused"
+		if approved {
+			out = "approved"
+		}
+		cfg := "metadata-off"
+		if e.metaOn {
+			cfg = "metadata-on"
+		}
+		r.Count("sysattr_"+cfg+"_"+sysShape+"_"+out, 1)
+		if auth.authorised() && policyOK && (eaclAuth == nil || eaclAuth.authorised()) {
+			r.Count("sysattr_else-fine_"+sysShape+"_"+out, 1)
+		}
+	}
 	// what was observed about v2 tokens with several contexts
 	for _, au := range []*vf37Auth{&auth, eaclAuth} {
 		if au == nil || !au.Multi {
@@ -795,7 +913,7 @@ func vf37OneRequest(r *verifkit.Run, e *vf37Env, w *vf37World, finalID cid.ID, a
 				r.Violation(kind+"|approved-with-invalid-policy", fmt.Sprintf("container creation approved with an invalid placement policy (%v)", contentTag), desc)
 			}
 			if !sysOK {
-				r.Violation(kind+"|approved-with-forbidden-system-attribute", fmt.Sprintf("container creation approved with a system attribute that is not permitted (%v)", contentTag), desc)
+				r.Violation(kind+"|approved-with-forbidden-system-attribute|"+sysShape, fmt.Sprintf("container creation approved with a system attribute that is not permitted (attributes in list order %v; chain metadata enabled: %v)", contentTag, e.metaOn), desc)
 			}
 		}
 		if vf37IsEACL(kind) || kind == "createV2+eacl" {
@@ -815,10 +933,32 @@ func vf37OneRequest(r *verifkit.Run, e *vf37Env, w *vf37World, finalID cid.ID, a
 		ok := auth.authorised() && exists && policyOK && sysOK && (!(vf37IsEACL(kind) || kind == "createV2+eacl") || (extendable && !touchesSys)) && (eaclAuth == nil || eaclAuth.authorised())
 		if ok {
 			r.Count("refused_although_oracle_would_allow", 1)
-			r.Seen("refused_although_allowed_shapes", mode+"|"+strings.Join(auth.Detail, ",")+"|"+strings.Join(contentTag, ","))
+			// which of the known stricter node rules explains the refusal ("unexplained" = none)
+			joined := strings.Join(contentTag, ",") + "," + strings.Join(auth.Detail, ",")
+			if eaclAuth != nil {
+				joined += "," + strings.Join(eaclAuth.Detail, ",")
+			}
+			rule := "unexplained"
+			switch {
+			case strings.Contains(joined, "policy=REP 1 EC 2/1"):
+				rule = "rep+ec-mix"
+			case strings.Contains(joined, "policy=EC 2/1") && !allowEC:
+				rule = "ec-switch-off"
+			case strings.Contains(joined, "request-not-signed-by-session-key"):
+				rule = "request-not-signed-by-session-key"
+			case strings.Contains(joined, "eacl-for-other-container"):
+				rule = "eacl-of-createV2-names-other-container"
+			}
+			r.Count("refused_although_allowed_because_"+rule, 1)
+			// attribute lists are summarised by their shape to keep this set small
+			tags := slices.DeleteFunc(slices.Clone(contentTag), func(t string) bool { return strings.HasPrefix(t, "attr=") })
+			if sysShape != "" {
+				tags = append(tags, "sysattrs="+sysShape)
+			}
+			r.Seen("refused_although_allowed_shapes", mode+"|"+strings.Join(auth.Detail, ",")+"|"+strings.Join(tags, ","))
 		}
 	}
-	r.Distinct(fmt.Sprintf("%s|%s|%v|%v|%v|%v|%v|%v|%v|%v", kind, mode, auth.authorised(), auth.Why, exists, policyOK, sysOK, extendable, touchesSys, approved))
+	r.Distinct(fmt.Sprintf("%s|%s|%v|%v|%v|%v|%v|%v|%v|%v|%v|%s", kind, mode, auth.authorised(), auth.Why, exists, policyOK, sysOK, extendable, touchesSys, approved, e.metaOn, sysShape))
 	if qi < 2 && wi < 3 {
 		r.Sample(desc)
 	}
